@@ -170,7 +170,7 @@ func (p C03) Run(c *sim.Ctx, t *sim.Tape) sim.RunResult {
 	}
 	weights := []int{5, 6, 2, 4, 4, 3, 5, 1, 6, 3, 2, 2, 3, 2, 2, 2, 3, 2, 1, 1, 1}
 
-	for q := 0; q < 50 && (q < 10 || t.Chance(950)); q++ {
+	for q, lim := 0, 50*deeper(c, t); q < lim && (q < 10 || t.Chance(950+20*(lim/100))); q++ {
 		// the administrator interferes from time to time.
 		if t.Chance(200) {
 			n := nodes[t.Int(len(nodes))]
